@@ -18,9 +18,11 @@ Spec == Init /\ [][Next]_l
 SeqSet(s) == {s[i] : i \in 1..Len(s)}
 
 (* the realiser round trip: what the library holds / was called with is the case *)
-SrvVars(s) == IF s.abs THEN {[n |-> p.v, d |-> p.d] : p \in {q \in SeqSet(s.host) \cup SeqSet(s.port) : IsVar(q)}} ELSE {}
+SrvVars(s) == (IF s.abs THEN {[n |-> p.v, d |-> p.d] : p \in {q \in SeqSet(s.host) \cup SeqSet(s.port) : IsVar(q)}} ELSE {})
+              \cup {[n |-> b.v, d |-> s.base[b.i]] : b \in SeqSet(BaseVars(s))}
+              \cup (IF HasSchemeVar(s) THEN {[n |-> s.sch.v, d |-> s.scheme]} ELSE {})
 Realised(line) ==
-   /\ "rdoc" \in DOMAIN line /\ "ru" \in DOMAIN line /\ "rm" \in DOMAIN line
+   /\ "rdoc" \in DOMAIN line /\ "ru" \in DOMAIN line /\ "rm" \in DOMAIN line /\ "built" \in DOMAIN line
    /\ "gh" \in DOMAIN line /\ "lh" \in DOMAIN line /\ Len(line.gh) = Len(line.reqs) /\ Len(line.lh) = Len(line.reqs)
    /\ Len(line.rdoc.servers) = Len(line.doc.servers)
    /\ \A i \in 1..Len(line.doc.servers) :
@@ -49,7 +51,7 @@ SameResult(a, b) == /\ Gist(a) = Gist(b)
 TailFailed(line, i, router) ==
    LET r == line.reqs[i] IN
    IF UTail(r.u) = "" \/ (router = "l" /\ HasMixed(line.doc)) THEN {}
-   ELSE LET js == {j \in 1..Len(line.reqs) : /\ line.reqs[j].m = r.m /\ UTail(line.reqs[j].u) = ""
+   ELSE LET js == {j \in 1..Len(line.reqs) : /\ line.reqs[j].m = r.m /\ UTail(line.reqs[j].u) = "" /\ UForm(line.reqs[j].u) = UForm(r.u)
                                              /\ URLStr(line.reqs[j].u) = BareURLStr(r.u)}
         IN IF js = {} \/ SameResult(line[router][i], line[router][CHOOSE j \in js : TRUE]) THEN {}
            ELSE {"query_or_fragment_changed_the_result"}
@@ -78,6 +80,24 @@ JudgeHeld(line, i, router) ==
                                      router |-> router, obs |-> obs, held |-> held, failed |-> failed,
                                      class |-> "none"])>>, "violations.ndjson")
 
+(* construction: a router that could not be built from the validated document is reported  *)
+(* once per case (none of the case's requests can be judged for it); a router the model   *)
+(* of the pinned code expects NOT to build, but which was built, is a fidelity difference *)
+JudgeBuilt(line, router) ==
+   LET built == line.built[router]
+       failed == BuildFailed(line.doc, built)
+   IN IF failed # {}
+      THEN CSVWrite("%1$s", <<ToJson([case |-> line.case, doc |-> line.doc, reqs |-> line.reqs, router |-> router,
+                                       built |-> built, failed |-> failed,
+                                       class |-> BuildClass(line.doc, router, built)])>>, "violations.ndjson")
+      ELSE \/ router = "l" \/ CurMuxBuilds(line.doc)
+           \/ CSVWrite("%1$s", <<ToJson([case |-> line.case, doc |-> line.doc, router |-> router, built |-> built,
+                                          model |-> "not built"])>>, "fidelity.ndjson")
+
+JudgeRouter(line, router) ==
+   /\ JudgeBuilt(line, router)
+   /\ line.built[router] = "ok" => \A i \in 1..Len(line.reqs) : JudgeObs(line, i, router) /\ JudgeHeld(line, i, router)
+
 Broken(line, what) ==
    CSVWrite("%1$s", <<ToJson([case |-> line.case, doc |-> line.doc, failed |-> {what}, got |-> line.load,
                                class |-> "none"])>>, "violations.ndjson")
@@ -85,8 +105,7 @@ Broken(line, what) ==
 LineOK(line) ==
    IF line.load # "ok" THEN Broken(line, "document_does_not_load_or_routers_not_built")
    ELSE IF ~Realised(line) THEN Broken(line, "harness_realiser")
-   ELSE \A i \in 1..Len(line.reqs) : /\ JudgeObs(line, i, "g") /\ JudgeObs(line, i, "l")
-                                      /\ JudgeHeld(line, i, "g") /\ JudgeHeld(line, i, "l")
+   ELSE JudgeRouter(line, "g") /\ JudgeRouter(line, "l")
 
 Judge == l > 0 => LineOK(Trace[l])
 
